@@ -23,6 +23,7 @@ theorem skel_SessionStore_Load_ok : skel_SessionStore_Load = ([
   "encryption.Validate",
   "if !ok",
   "return nil, errors.New(\"cookie signature not valid\")",
+  "errors.New",
   "sessions.DecodeSessionState",
   "if err != nil",
   "return nil, err",
@@ -37,5 +38,89 @@ theorem skel_Manager_Load_ok : skel_Manager_Load = ([
   "func{",
   "return m.Store.Load(req.Context(), key)",
   "m.Store.Load"] : List String) := rfl
+
+theorem skel_Validate_ok : skel_Validate = ([
+  "strings.Split",
+  "if len(parts) != 3",
+  "return",
+  "if checkSignature(parts[2], seed, cookie.Name, parts[0], parts[1])",
+  "strconv.Atoi",
+  "if err != nil",
+  "return",
+  "if (expiration == time.Duration(0)) || (t.After(time.Now().Add(expiration*-1)) && t.Before(time.Now().Add(time.Minute*5)))",
+  "t.After",
+  "time.Now().Add",
+  "t.Before",
+  "time.Now().Add",
+  "base64.URLEncoding.DecodeString",
+  "if err == nil",
+  "return",
+  "return"] : List String) := rfl
+
+theorem skel_SignedValue_ok : skel_SignedValue = ([
+  "base64.URLEncoding.EncodeToString",
+  "fmt.Sprintf",
+  "if err != nil",
+  "return \"\", err",
+  "fmt.Sprintf",
+  "return cookieVal, nil"] : List String) := rfl
+
+theorem skel_cookieSignature_ok : skel_cookieSignature = ([
+  "hmac.New",
+  "h.Write",
+  "if err != nil",
+  "return \"\", err",
+  "h.Sum",
+  "return base64.URLEncoding.EncodeToString(b), nil",
+  "base64.URLEncoding.EncodeToString"] : List String) := rfl
+
+theorem skel_checkHmac_ok : skel_checkHmac = ([
+  "base64.URLEncoding.DecodeString",
+  "if err1 == nil",
+  "base64.URLEncoding.DecodeString",
+  "if err2 == nil",
+  "return hmac.Equal(inputMAC, expectedMAC)",
+  "hmac.Equal",
+  "return false"] : List String) := rfl
+
+theorem skel_newTicket_ok : skel_newTicket = ([
+  "if err != nil",
+  "io.ReadFull",
+  "return nil, fmt.Errorf(\"failed to create new ticket ID: %v\", err)",
+  "fmt.Sprintf",
+  "hex.EncodeToString",
+  "if err != nil",
+  "io.ReadFull",
+  "return nil, fmt.Errorf(\"failed to create encryption secret: %v\", err)",
+  "return &ticket{ id: ticketID, secret: secret, options: cookieOpts, , nil"] : List String) := rfl
+
+theorem skel_decodeTicketFromRequest_ok : skel_decodeTicketFromRequest = ([
+  "req.Cookie",
+  "if err != nil",
+  "return nil, err",
+  "encryption.Validate",
+  "if !ok",
+  "return nil, fmt.Errorf(\"session ticket cookie failed validation: %v\", er",
+  "return decodeTicket(string(val), cookieOpts)"] : List String) := rfl
+
+theorem skel_decodeCSRFCookie_ok : skel_decodeCSRFCookie = ([
+  "encryption.Validate",
+  "if !ok",
+  "return nil, errors.New(\"CSRF cookie failed validation\")",
+  "errors.New",
+  "decrypt",
+  "if err != nil",
+  "return nil, err",
+  "msgpack.Unmarshal",
+  "if err != nil",
+  "return nil, fmt.Errorf(\"error unmarshalling data to CSRF: %v\", err)",
+  "return csrf, nil"] : List String) := rfl
+
+theorem skel_ticket_saveSession_ok : skel_ticket_saveSession = ([
+  "if err != nil",
+  "return err",
+  "if err != nil",
+  "return fmt.Errorf(\"failed to encode the session state with the tick",
+  "return saver(t.id, ciphertext, t.options.Expire)"] : List String) := rfl
 
 end O2P.Expect.C02
